@@ -55,6 +55,12 @@ def make_pool(rng, work):
     # compiled alone (lou_charToDots / lou_dotsToChar first) or together with the translation part must not matter
     (work / "G.utb").write_text("space \\s 0\nlowercase a 1\nlowercase b 12\ngrouping paren () 126,345\nsign - 36\n")
     lists += [str(work / n) for n in ("A.utb", "B.utb", "C.utb", "D.utb", "V.utb", "V.utb", "G.utb", "G.utb")]
+    for i in range(2):
+        r = rng.fork(("emph", i))
+        text, _al = tablegen.gen_emphasis_table(r)
+        p = work / ("e%d.utb" % i)
+        p.write_text(text)
+        lists.append("unicode.dis," + str(p))
     for i in range(4):
         r = rng.fork(("gt", i))
         entries, rules, letters = tablegen.gen_c06_table(r, directions=("noback", "nofor"))
@@ -72,7 +78,7 @@ def make_calls(rng, lists, n):
         k = rng.below(10)
         generated = "/work-" in tl
         if generated:
-            inp = [rng.choice([97, 98, 99, 100, 32, 46, 49, 40, 41]) for _ in range(rng.range(1, 12))]
+            inp = [rng.choice([97, 98, 99, 100, 32, 46, 49, 40, 41, 65, 66, 67]) for _ in range(rng.range(1, 12))]
         else:
             inp = [c for c in safety.gen_input(rng, 24) if c] or [97]
         mode = rng.choice([0, 0, 4, 1, 128, 256, 4 | 64])
@@ -81,7 +87,7 @@ def make_calls(rng, lists, n):
         if k < 4:
             fn = rng.choice("TTSR")
             outlen = rng.choice([4 * len(inp) + 8, rng.range(0, len(inp) + 1), len(inp)])
-            x = trans.case_line(fn, mode, inp, outlen, cursor=cur, presence=pres, typeform=[rng.choice([0, 0, 1, 2]) for _ in inp] if pres & 1 else None)
+            x = trans.case_line(fn, mode, inp, outlen, cursor=cur, presence=pres, typeform=safety.gen_typeform(rng, len(inp)) if pres & 1 else None)
         elif k < 8:
             if mode & 4 or generated:
                 cells = [0x8000 | rng.choice([1, 2, 3, 0, 50, 63, 255, 17, 9, 25]) for _ in range(rng.range(1, 12))]
